@@ -298,6 +298,10 @@ fn sig_shapes(p: &'static refmodel::Params, pkc0: &PkCtx, tier: Tier) -> Vec<(St
         s.extend_from_slice(&h.y);
         out.push((format!("{zn}|hint:{}", h.class), s));
     }
+    // commitment hashes with the longest SampleInBall rejection runs (committed search results), well-formed z and hints
+    for c in crate::forge::sib_long_cases(p, pkc0, &std::sync::Arc::new(pkc0.pk.clone())).0 {
+        out.push((c.class.clone(), c.sig));
+    }
     // forged, FIPS-204-valid signatures under the zero-t1 key with extremal response vectors
     let g = (p.gamma1 - p.beta - 1) as i32;
     let alt: Poly = core::array::from_fn(|i| if i % 2 == 0 { g } else { -g });
